@@ -300,6 +300,15 @@ func (c *connection) onProcess(onConnect OnConnect, onRequest OnRequest) (proces
 // offerBufferedInput starts a handler task for input that is still buffered when the peer hangs up.
 // The task runs the close callbacks when it exits, so the caller must not run them itself.
 func (c *connection) offerBufferedInput() (started bool) {
+	if !c.hasInputToOffer() {
+		return false
+	}
+	onRequest, _ := c.onRequestCallback.Load().(OnRequest)
+	return c.onProcess(nil, onRequest)
+}
+
+// hasInputToOffer reports whether there is buffered input that a handler task may be started for.
+func (c *connection) hasInputToOffer() bool {
 	onRequest, _ := c.onRequestCallback.Load().(OnRequest)
 	if onRequest == nil || c.inputBuffer.IsEmpty() {
 		return false
@@ -308,7 +317,7 @@ func (c *connection) offerBufferedInput() (started bool) {
 		// OnConnect has not finished: its task owns the first OnRequest
 		return false
 	}
-	return c.onProcess(nil, onRequest)
+	return true
 }
 
 // closeCallback .
